@@ -188,6 +188,11 @@ def run(ctx):
         ctx.check(rt is not None and N(rt) == want, "IT", "len", "len() == entries - i: the number of items still to come", C.site(), how=G.show(rt), why=G.show(rt))
     cl = [f for k, f in F.fns.items() if f.get("impl_self_name") == "EFIMemoryAreaIter" and f.get("impl_trait") == "core::clone::Clone" and f.get("name") == "clone"]
     ctx.check(len(cl) == 1 and cl[0].get("derived"), "IT", "clone", "Clone is derived (copies every field)", cl[0].get("span", "") if cl else "", how="derived", why=str(len(cl)))
+    from . import iters
+    remaining = ("bin", "Sub", fld(deref(arg(1)), itf["entries"]["i"]), fld(deref(arg(1)), itf["i"]["i"]))
+    iters.check_overrides(ctx, F, "IT", "EFIMemoryAreaIter", verified={"size_hint": iters.size_hint_is(F, (remaining,))})
+    # the extents of the map bytes themselves (memory_map = [24, size)) are C05's premises for this kind
+    ctx.import_prop("C05", only=lambda o: "EFIMemoryMapTag" in o.key, label="EFIMemoryMapTag")
     ctx.note("no overflow in i * desc_size: i < len/desc_size implies i * desc_size < len <= isize::MAX (hand step of the strided lemma)")
     return ctx.finish(
         "other",
